@@ -1,3 +1,431 @@
 import CvProps.RealInst
 import CvProps.C15Lemmas
-/-! Helper lemmas for C16 (filled by the proofs). -/
+/-! Helper lemmas for C16 (PMF integration: divergence bookkeeping, 1-D integration, Laplacian, conjugate gradients). -/
+open Cv Cv.Integ
+
+namespace Cv.Integ.L
+open Cv.C15
+
+/-! ## sums, the Laplacian -/
+
+theorem foldl_add {β : Type} (f : β → ℝ) (l : List β) (a : ℝ) :
+    l.foldl (fun acc d => acc + f d) a = a + (l.map f).sum := by
+  induction l generalizing a with
+  | nil => simp
+  | cons x xs ih => simp [ih, add_assoc]
+
+theorem stencil_const (pnx : List Int) (per : List Bool) (c : ℝ) (p : Idx) (d : Nat) :
+    stencil pnx per (fun _ => c) p d = 0 := by
+  unfold stencil
+  simp only
+  split_ifs <;> norm_num <;> ring
+
+theorem stencil_linear (pnx : List Int) (per : List Bool) (A B : Idx → ℝ) (a : ℝ) (p : Idx) (d : Nat) :
+    stencil pnx per (fun q => A q + a * B q) p d = stencil pnx per A p d + a * stencil pnx per B p d := by
+  unfold stencil
+  simp only
+  split_ifs <;> norm_num <;> ring
+
+theorem lapAt_eq_sum (pnx : List Int) (per : List Bool) (w : List ℝ) (A : Idx → ℝ) (p : Idx) :
+    lapAt pnx per w A p = ((List.range pnx.length).map fun d =>
+      lapFact pnx per p d * (1.0 / (w.getD d 1.0 * w.getD d 1.0)) * stencil pnx per A p d).sum := by
+  unfold lapAt
+  rw [foldl_add]
+  norm_num
+
+theorem lapAt_const (pnx : List Int) (per : List Bool) (w : List ℝ) (c : ℝ) (p : Idx) :
+    lapAt pnx per w (fun _ => c) p = 0 := by
+  rw [lapAt_eq_sum]
+  simp [stencil_const]
+
+theorem lapAt_linear (pnx : List Int) (per : List Bool) (w : List ℝ) (A B : Idx → ℝ) (a : ℝ) (p : Idx) :
+    lapAt pnx per w (fun q => A q + a * B q) p = lapAt pnx per w A p + a * lapAt pnx per w B p := by
+  simp only [lapAt_eq_sum, stencil_linear]
+  norm_num
+  generalize List.range pnx.length = l
+  induction l with
+  | nil => simp
+  | cons x xs ih => simp only [List.map_cons, List.sum_cons, ih]; ring
+
+/-! ## `atimes`, conjugate gradients -/
+
+theorem axpy_length (a : ℝ) (p x : List ℝ) : (axpy a p x).length = min x.length p.length := by
+  simp [axpy]
+
+theorem axpy_getD (a : ℝ) (p x : List ℝ) (h : x.length = p.length) (k : Nat) :
+    (axpy a p x).getD k 0.0 = x.getD k 0.0 + a * p.getD k 0.0 := by
+  unfold axpy
+  simp only [List.getD_eq_getElem?_getD, List.getElem?_zipWith]
+  by_cases hk : k < x.length
+  · have hk' : k < p.length := h ▸ hk
+    simp [List.getElem?_eq_getElem hk, List.getElem?_eq_getElem hk']
+  · have hk' : ¬ k < p.length := h ▸ hk
+    rw [List.getElem?_eq_none (by omega), List.getElem?_eq_none (by omega)]
+    norm_num
+
+theorem vget_axpy (a : ℝ) (p x : List ℝ) (h : x.length = p.length) (i : Int) :
+    vget (axpy a p x) i = vget x i + a * vget p i := by
+  unfold vget
+  split_ifs
+  · norm_num
+  · exact axpy_getD a p x h _
+
+theorem atimes_axpy (pnx : List Int) (per : List Bool) (w : List ℝ) (a : ℝ) (x p : List ℝ)
+    (h : x.length = p.length) :
+    atimes pnx per w (axpy a p x) = axpy a (atimes pnx per w p) (atimes pnx per w x) := by
+  unfold atimes
+  simp only [vget_axpy a p x h, lapAt_linear]
+  simp [axpy, List.zipWith_map_left, List.zipWith_map_right]
+
+theorem atimes_length (pnx : List Int) (per : List Bool) (w : List ℝ) (x : List ℝ) :
+    (atimes pnx per w x).length = (points pnx).length := by
+  simp [atimes]
+
+/-! CG -/
+
+theorem zipWith_sub_axpy (ak : ℝ) : ∀ (b u z : List ℝ),
+    axpy (-ak) z (List.zipWith (· - ·) b u) = List.zipWith (· - ·) b (axpy ak z u)
+  | [], _, _ => by simp [axpy]
+  | _ :: _, [], _ => by simp [axpy]
+  | _ :: _, _ :: _, [] => by simp [axpy]
+  | b :: bs, u :: us, z :: zs => by
+    have := zipWith_sub_axpy ak bs us zs
+    simp only [axpy] at this ⊢
+    simp only [List.zipWith_cons_cons, this]
+    congr 1
+    ring
+
+/-- the loop invariant of the solver -/
+def CgInv (L : List ℝ → List ℝ) (n : Nat) (b : List ℝ) (bnrm tol : ℝ) (s : Cg ℝ) : Prop :=
+  s.x.length = n ∧ s.r.length = n ∧ s.p.length = n ∧ s.r = List.zipWith (· - ·) b (L s.x) ∧
+  (s.stop = true → l2norm s.r / bnrm ≤ tol)
+
+theorem cgIter_inv (L : List ℝ → List ℝ) (n : Nat)
+    (hlen : ∀ x, x.length = n → (L x).length = n)
+    (hlin : ∀ a x p, x.length = n → p.length = n → L (axpy a p x) = axpy a (L p) (L x))
+    (b : List ℝ) (bnrm tol : ℝ) (s : Cg ℝ) (h : CgInv L n b bnrm tol s) :
+    CgInv L n b bnrm tol (cgIter L bnrm tol s) := by
+  obtain ⟨hx, hr, hp, hres, _⟩ := h
+  have hp' : (if (s.iter + 1 == 1) = true then s.r else axpy (dotL s.r s.r / s.bkden) s.p s.r).length = n := by
+    split_ifs
+    · exact hr
+    · rw [axpy_length, hr, hp]; simp
+  unfold cgIter
+  refine ⟨?_, ?_, hp', ?_, ?_⟩
+  · simp only [axpy_length, hx, hp']; simp
+  · simp only [axpy_length, hr, hlen _ hp']; simp
+  · simp only
+    rw [hlin _ _ _ hx hp', ← zipWith_sub_axpy, ← hres]
+  · simp only [decide_eq_true_eq]
+    exact id
+
+theorem cgLoop_inv (L : List ℝ → List ℝ) (n : Nat)
+    (hlen : ∀ x, x.length = n → (L x).length = n)
+    (hlin : ∀ a x p, x.length = n → p.length = n → L (axpy a p x) = axpy a (L p) (L x))
+    (b : List ℝ) (bnrm tol : ℝ) : ∀ (fuel : Nat) (s : Cg ℝ), CgInv L n b bnrm tol s →
+    CgInv L n b bnrm tol (cgLoop L bnrm tol fuel s)
+  | 0, s, h => h
+  | fuel + 1, s, h => by
+    unfold cgLoop
+    split_ifs
+    · exact h
+    · exact cgLoop_inv L n hlen hlin b bnrm tol fuel _ (cgIter_inv L n hlen hlin b bnrm tol s h)
+
+theorem cgSolve_inv (L : List ℝ → List ℝ) (n : Nat)
+    (hlen : ∀ x, x.length = n → (L x).length = n)
+    (hlin : ∀ a x p, x.length = n → p.length = n → L (axpy a p x) = axpy a (L p) (L x))
+    (b x0 : List ℝ) (tol : ℝ) (itmax : Nat) (hb : b.length = n) (hx : x0.length = n) :
+    CgInv L n b (l2norm b) tol (cgSolve L b x0 tol itmax) := by
+  have h0 : CgInv L n b (l2norm b) tol
+      { x := x0, r := List.zipWith (· - ·) b (L x0), p := List.zipWith (· - ·) b (L x0),
+        bkden := 1.0, iter := 0, err := 0.0, stop := false } := by
+    refine ⟨hx, ?_, ?_, rfl, by simp⟩ <;> simp [hb, hlen _ hx]
+  unfold cgSolve
+  simp only
+  split_ifs
+  · exact h0
+  · exact cgLoop_inv L n hlen hlin b _ tol itmax _ h0
+
+theorem cgSolve_stop_pos (L : List ℝ → List ℝ) (b x0 : List ℝ) (tol : ℝ) (itmax : Nat)
+    (h : (cgSolve L b x0 tol itmax).stop = true) : 0 < l2norm b := by
+  unfold cgSolve at h
+  by_cases hlt : l2norm b < 1.0e-14
+  · simp [hlt] at h
+  · have : (1.0e-14 : ℝ) ≤ l2norm b := not_lt.1 hlt
+    have h2 : (0:ℝ) < 1.0e-14 := by norm_num
+    exact lt_of_lt_of_le h2 this
+
+/-! ## one dimension -/
+
+theorem average1D_eq (g : GGrid ℝ) (sm : Bool) (n : Nat) :
+    average1D g sm n = ((List.range n).map (valOut g sm)).sum / (n : ℝ) := by
+  unfold average1D
+  rw [foldl_add]
+  norm_num
+
+theorem prefixSums_length : ∀ (acc : ℝ) (vs : List ℝ), (prefixSums acc vs).length = vs.length + 1
+  | _, [] => rfl
+  | acc, v :: vs => by simp [prefixSums, prefixSums_length (acc + v) vs]
+
+theorem prefixSums_getD : ∀ (acc : ℝ) (vs : List ℝ) (i : Nat), i ≤ vs.length →
+    (prefixSums acc vs).getD i 0 = acc + (vs.take i).sum
+  | acc, [], i, h => by
+    have : i = 0 := by simpa using h
+    subst this; simp [prefixSums]
+  | acc, v :: vs, 0, _ => by simp [prefixSums]
+  | acc, v :: vs, i + 1, h => by
+    have := prefixSums_getD (acc + v) vs i (by simpa using h)
+    simp only [prefixSums, List.getD_cons_succ, this, List.take_succ_cons, List.sum_cons]
+    ring
+
+theorem take_map_range {β : Type} (f : Nat → β) (n i : Nat) (h : i ≤ n) :
+    ((List.range n).map f).take i = (List.range i).map f := by
+  rw [← List.map_take, List.take_range, Nat.min_eq_left h]
+
+theorem sum_map_sub_mul (f : Nat → ℝ) (a w : ℝ) (l : List Nat) :
+    (l.map fun i => (f i - a) * w).sum = ((l.map f).sum - (l.length : ℝ) * a) * w := by
+  induction l with
+  | nil => simp
+  | cons x xs ih => simp only [List.map_cons, List.sum_cons, ih, List.length_cons]; push_cast; ring
+
+/-- the list `integrate1D` computes, with the shape plugged in -/
+theorem integrate1D_eq (g : GGrid ℝ) (sm csm : Bool) (n : Nat) (w : ℝ) (per : Bool)
+    (hnx : g.shape.nx = [(n : Int)]) (hper : g.shape.per = [per]) (hw : g.w = [w]) :
+    integrate1D g sm csm =
+      (if per then
+        (prefixSums 0 ((List.range n).map fun i => (valOut g sm i - average1D g csm n) * w)).take n
+      else prefixSums 0 ((List.range n).map fun i => (valOut g sm i - 0) * w)) := by
+  unfold integrate1D
+  simp only [hnx, hper, hw, List.getD_cons_zero, Int.toNat_natCast]
+  cases per <;> norm_num
+
+/-! ## corners, `wrap_detect_edge`, touched points -/
+
+
+/-! corners -/
+theorem mem_cornersDown_succ (n : Nat) (c : Idx) :
+    c ∈ cornersDown (n + 1) ↔ ∃ c' ∈ cornersDown n, c = (-1) :: c' ∨ c = 0 :: c' := by
+  simp [cornersDown]
+
+theorem mem_cornersUp_succ (n : Nat) (c : Idx) :
+    c ∈ cornersUp (n + 1) ↔ ∃ c' ∈ cornersUp n, c = 0 :: c' ∨ c = 1 :: c' := by
+  simp [cornersUp]
+
+@[simp] theorem mem_cornersDown_zero (c : Idx) : c ∈ cornersDown 0 ↔ c = [] := by simp [cornersDown]
+@[simp] theorem mem_cornersUp_zero (c : Idx) : c ∈ cornersUp 0 ↔ c = [] := by simp [cornersUp]
+
+theorem wrapEdge_cons (n : Int) (ns : List Int) (p : Bool) (ps : List Bool) (i : Int) (is : Idx) :
+    wrapEdge (n :: ns) (p :: ps) (i :: is) =
+      match wrapEdge ns ps is with
+      | none => none
+      | some r =>
+        if p then some (Int.tmod (i + n) n :: r)
+        else if i < 0 ∨ i ≥ n then none else some (i :: r) := rfl
+
+theorem wrapIdx_cons (n : Int) (ns : List Int) (p : Bool) (ps : List Bool) (i : Int) (is : Idx) :
+    wrapIdx (n :: ns) (p :: ps) (i :: is) = (if p then Int.tmod (i + n) n else i) :: wrapIdx ns ps is := rfl
+
+theorem addIdx_cons (a b : Int) (as bs : Idx) : addIdx (a :: as) (b :: bs) = (a + b) :: addIdx as bs := rfl
+
+theorem tmod_add_self (a n : Int) (h0 : 0 ≤ a) (h1 : a < n) : Int.tmod (a + n) n = a := by
+  rw [Int.tmod_eq_emod_of_nonneg (by omega), Int.add_emod_right, Int.emod_eq_of_lt h0 h1]
+
+theorem touched_aux : ∀ (nx : List Int) (per : List Bool) (q c b : Idx),
+    per.length = nx.length → (∀ n ∈ nx, 1 ≤ n) →
+    indexOk (List.zipWith (fun n p => if p then n else n + 1) nx per) q = true →
+    c ∈ cornersDown nx.length → wrapEdge nx per (addIdx q c) = some b →
+    ∃ e ∈ cornersUp nx.length,
+      q = wrapIdx (List.zipWith (fun n p => if p then n else n + 1) nx per) per (addIdx b e)
+  | [], per, q, c, b, hl, _, hq, hc, hb => by
+    cases per with
+    | cons _ _ => simp at hl
+    | nil =>
+      cases q with
+      | cons _ _ => simp at hq
+      | nil =>
+        refine ⟨[], by simp, ?_⟩
+        cases b <;> rfl
+  | n :: ns, per, q, c, b, hl, hpos, hq, hc, hb => by
+    cases per with
+    | nil => simp at hl
+    | cons p ps =>
+      cases q with
+      | nil => simp at hq
+      | cons qi qs =>
+        simp only [List.zipWith_cons_cons] at hq ⊢
+        rw [indexOk_cons] at hq
+        obtain ⟨hq0, hq1, hqs⟩ := hq
+        simp only [List.length_cons] at hc ⊢
+        rw [mem_cornersDown_succ] at hc
+        obtain ⟨c', hc', hcc⟩ := hc
+        have hn : 1 ≤ n := hpos n (by simp)
+        have hpos' : ∀ m ∈ ns, 1 ≤ m := fun m hm => hpos m (List.mem_cons_of_mem _ hm)
+        have hl' : ps.length = ns.length := by simpa using hl
+        -- split the wrapEdge equation
+        have key : ∃ ci : Int, (ci = -1 ∨ ci = 0) ∧ c = ci :: c' := by
+          rcases hcc with h | h
+          · exact ⟨-1, Or.inl rfl, h⟩
+          · exact ⟨0, Or.inr rfl, h⟩
+        obtain ⟨ci, hci, rfl⟩ := key
+        rw [addIdx_cons, wrapEdge_cons] at hb
+        cases hr : wrapEdge ns ps (addIdx qs c') with
+        | none => rw [hr] at hb; simp at hb
+        | some r =>
+          rw [hr] at hb
+          simp only at hb
+          obtain ⟨e', he', hqe⟩ := touched_aux ns ps qs c' r hl' hpos' hqs hc' hr
+          cases p with
+          | true =>
+            simp only [if_true, Option.some.injEq] at hb hq1
+            subst hb
+            refine ⟨(-ci) :: e', ?_, ?_⟩
+            · rw [mem_cornersUp_succ]
+              refine ⟨e', he', ?_⟩
+              rcases hci with rfl | rfl
+              · right; rfl
+              · left; rfl
+            · rw [addIdx_cons, wrapIdx_cons, ← hqe]
+              simp only [if_true]
+              congr 1
+              rcases hci with rfl | rfl
+              · by_cases h0 : qi = 0
+                · subst h0
+                  have e0 : (0 : Int) + -1 + n = n - 1 := by ring
+                  have e1 : Int.tmod (n - 1) n = n - 1 := by
+                    rw [Int.tmod_eq_emod_of_nonneg (by omega)]
+                    exact Int.emod_eq_of_lt (a := n - 1) (b := n) (by omega) (by omega)
+                  rw [e0, e1]
+                  have e2 : n - 1 + - -1 + n = n + n := by ring
+                  rw [e2, Int.tmod_eq_emod_of_nonneg (by omega), Int.add_emod_right, Int.emod_self]
+                · have e1 : qi + -1 + n = (qi - 1) + n := by ring
+                  rw [e1, tmod_add_self (qi - 1) n (by omega) (by omega)]
+                  have e2 : qi - 1 + - -1 + n = qi + n := by ring
+                  rw [e2, tmod_add_self qi n hq0 hq1]
+              · simp only [add_zero, neg_zero]
+                rw [tmod_add_self qi n hq0 hq1, tmod_add_self qi n hq0 hq1]
+          | false =>
+            simp only [Bool.false_eq_true, if_false] at hb hq1
+            split_ifs at hb with hout
+            simp only [Option.some.injEq] at hb
+            subst hb
+            refine ⟨(-ci) :: e', ?_, ?_⟩
+            · rw [mem_cornersUp_succ]
+              refine ⟨e', he', ?_⟩
+              rcases hci with rfl | rfl
+              · right; rfl
+              · left; rfl
+            · rw [addIdx_cons, wrapIdx_cons, ← hqe]
+              simp
+
+/-! ## divergence bookkeeping -/
+
+
+theorem divLocal_congr (g g' : GGrid ℝ) (sm : Bool) (q : Idx)
+    (hs : g'.shape = g.shape) (hw : g'.w = g.w)
+    (h : ∀ c ∈ cornersDown g.shape.nd, gradAt g' sm (addIdx q c) = gradAt g sm (addIdx q c)) :
+    divLocal g' sm q = divLocal g sm q := by
+  have ht : ∀ d, divTerm g' sm q d = divTerm g sm q d := by
+    intro d
+    unfold divTerm
+    rw [hs, hw]
+    congr 1
+    apply List.foldl_ext
+    intro a c hc
+    simp only [h c hc]
+  unfold divLocal
+  simp only [ht, hs]
+
+/-- folding `updateDivLocal` over a list of points: the listed points hold the fresh value, the others are untouched -/
+theorem foldl_updateDivLocal (g : GGrid ℝ) (sm : Bool) : ∀ (pts : List Idx) (dv : DivF ℝ) (q : Idx),
+    (pts.foldl (fun d p => updateDivLocal g sm d p) dv) q = if q ∈ pts then divLocal g sm q else dv q
+  | [], dv, q => by simp
+  | p :: ps, dv, q => by
+    rw [List.foldl_cons, foldl_updateDivLocal g sm ps]
+    by_cases h1 : q ∈ ps
+    · simp [h1]
+    · by_cases h2 : q = p
+      · subst h2; simp [updateDivLocal]
+      · simp [h1, h2, updateDivLocal]
+
+theorem updateDivNeighbors_eq (g : GGrid ℝ) (sm : Bool) (dv : DivF ℝ) (b q : Idx) :
+    updateDivNeighbors g sm dv b q =
+      if (∃ e ∈ cornersUp g.shape.nd, q = wrapIdx g.shape.pmfNx g.shape.per (addIdx b e))
+      then divLocal g sm q else dv q := by
+  unfold updateDivNeighbors
+  have := foldl_updateDivLocal g sm
+    ((cornersUp g.shape.nd).map fun e => wrapIdx g.shape.pmfNx g.shape.per (addIdx b e)) dv q
+  rw [List.foldl_map] at this
+  rw [this]
+  simp only [List.mem_map, eq_comm]
+
+/-- `get_grad` after `acc_force(b)` at an index that does not wrap to `b` -/
+theorem gradAt_accForce_of_ne (g : GGrid ℝ) (sm : Bool) (b : Idx) (f : List ℝ) (ix : Idx)
+    (h : wrapEdge g.shape.nx g.shape.per ix ≠ some b) :
+    gradAt (accForce g b f) sm ix = gradAt g sm ix := by
+  unfold gradAt
+  show (match wrapEdge g.shape.nx g.shape.per ix with
+    | none => _
+    | some j => _) = _
+  cases hj : wrapEdge g.shape.nx g.shape.per ix with
+  | none => rfl
+  | some j =>
+    have hne : j ≠ b := by
+      intro e; apply h; rw [hj, e]
+    simp [accForce, hne]
+
+theorem zipWith_sub_comm : ∀ (s a b : List ℝ),
+    List.zipWith (· - ·) (List.zipWith (· - ·) s a) b = List.zipWith (· - ·) (List.zipWith (· - ·) s b) a
+  | [], _, _ => by simp
+  | _ :: _, [], [] => by simp
+  | _ :: _, [], _ :: _ => by simp
+  | _ :: _, _ :: _, [] => by simp
+  | s :: ss, a :: as, b :: bs => by
+    simp only [List.zipWith_cons_cons, zipWith_sub_comm ss as bs]
+    congr 1; ring
+
+theorem accForce_comm (g : GGrid ℝ) (b1 b2 : Idx) (f1 f2 : List ℝ) :
+    accForce (accForce g b1 f1) b2 f2 = accForce (accForce g b2 f2) b1 f1 := by
+  unfold accForce
+  simp only [GGrid.mk.injEq, true_and]
+  constructor
+  · funext j
+    by_cases hb : b1 = b2
+    · subst hb; by_cases h1 : j = b1 <;> simp [h1, zipWith_sub_comm]
+    · by_cases h1 : j = b1
+      · subst h1; simp [hb]
+      · by_cases h2 : j = b2
+        · subst h2; simp [h1]
+        · simp [h1, h2]
+  · funext j
+    by_cases hb : b1 = b2
+    · subst hb; by_cases h1 : j = b1 <;> simp [h1]
+    · by_cases h1 : j = b1
+      · subst h1; simp [hb]
+      · by_cases h2 : j = b2
+        · subst h2; simp [h1]
+        · simp [h1, h2]
+
+theorem samples_fst (sm : Bool) : ∀ (l : List (Idx × List ℝ)) (st : GGrid ℝ × DivF ℝ),
+    (samples sm st l).1 = l.foldl (fun g bf => accForce g bf.1 bf.2) st.1
+  | [], st => rfl
+  | bf :: l, st => by
+    unfold samples
+    rw [List.foldl_cons, List.foldl_cons]
+    exact samples_fst sm l (sample sm st bf)
+
+theorem samples_fst_perm (sm : Bool) (l₁ l₂ : List (Idx × List ℝ)) (hp : l₁.Perm l₂)
+    (st : GGrid ℝ × DivF ℝ) : (samples sm st l₁).1 = (samples sm st l₂).1 := by
+  rw [samples_fst, samples_fst]
+  apply List.Perm.foldl_eq' hp
+  intro x _ y _ z
+  exact accForce_comm z x.1 y.1 x.2 y.2
+
+theorem foldl_accForce_shape : ∀ (l : List (Idx × List ℝ)) (g : GGrid ℝ),
+    (l.foldl (fun g bf => accForce g bf.1 bf.2) g).shape = g.shape ∧
+    (l.foldl (fun g bf => accForce g bf.1 bf.2) g).w = g.w
+  | [], g => ⟨rfl, rfl⟩
+  | bf :: l, g => by
+    rw [List.foldl_cons]
+    exact foldl_accForce_shape l _
+
+end Cv.Integ.L
